@@ -40,6 +40,7 @@ walked: the set of states within a completed depth does not depend on it.
 """
 import collections
 import copy
+import os as _os
 import hashlib
 import random
 import types
@@ -51,6 +52,13 @@ SKIP_FIELDS = frozenset([
 ])
 _OPAQUE = (sched.VLock, sched.VCondition, sched.VEvent)
 _ATOMS = (bool, int, float, str, bytes, type(None))
+_FAST = frozenset(_ATOMS)
+_OPAQUE_SET = frozenset(_OPAQUE)
+_CODE = frozenset([types.FunctionType, types.BuiltinFunctionType, type,
+                   types.ModuleType])
+_IMMUTABLE = frozenset(_ATOMS) | frozenset([
+    type, types.FunctionType, types.BuiltinFunctionType, types.ModuleType,
+    range, complex, type(Ellipsis), type(NotImplemented)])
 
 
 class Unsound(Exception):
@@ -86,46 +94,165 @@ def canon(objs, skip=SKIP_FIELDS):
             out.append((k, c(getattr(o, k))))
         return tuple(out)
 
+    opaque = _OPAQUE_SET
+
     def c(o):
-        if isinstance(o, _ATOMS):
+        t = type(o)
+        if t in _FAST:
             return o
+        if t in opaque:
+            return '<lock>'
+        if t is tuple:
+            return ('tuple',) + tuple([x if type(x) in _FAST else c(x)
+                                       for x in o])
+        if t is types.MethodType:
+            return ('<method>', o.__func__.__qualname__, c(o.__self__))
+        if t in _CODE:
+            return ('<%s>' % t.__name__,
+                    getattr(o, '__qualname__', getattr(o, '__name__', '?')))
+        if isinstance(o, _ATOMS):          # subclasses of the atom types
+            return (t.__name__, o)
         if isinstance(o, (bytearray, memoryview)):
             return ('bytearray', bytes(o))
         if isinstance(o, _OPAQUE):
             return '<lock>'
-        if isinstance(o, (types.FunctionType, types.BuiltinFunctionType,
-                          type, types.ModuleType)):
-            return ('<%s>' % type(o).__name__,
-                    getattr(o, '__qualname__', getattr(o, '__name__', '?')))
-        if isinstance(o, types.MethodType):
-            return ('<method>', o.__func__.__qualname__, c(o.__self__))
-        if isinstance(o, tuple):
-            return ('tuple',) + tuple(c(x) for x in o)
         ref = seen.get(id(o))
         if ref is not None:
             return ('<ref>', ref)
         seen[id(o)] = len(seen) + 1
         keep.append(o)
+        if t is list or t is collections.deque:
+            return (t.__name__,) + tuple(
+                [x if type(x) in _FAST else c(x) for x in o])
         if pdu_base and isinstance(o, pdu_base):
             try:
-                return ('pdu', type(o).__name__, bytes(o.encode()))
+                return ('pdu', t.__name__, bytes(o.encode()))
             except Exception:
                 # not yet encodable (an I PDU without N(R) in a send queue)
-                return ('pdu*', type(o).__name__, obj_fields(o))
+                return ('pdu*', t.__name__, obj_fields(o))
         if isinstance(o, (list, collections.deque)):
-            return (type(o).__name__,) + tuple(c(x) for x in o)
+            return (t.__name__,) + tuple(c(x) for x in o)
         if isinstance(o, dict):
             items = [(c(k), c(v)) for k, v in o.items()]
             items.sort(key=lambda kv: repr(kv[0]))
-            return (type(o).__name__,) + tuple(items)
+            return (t.__name__,) + tuple(items)
         if isinstance(o, (set, frozenset)):
-            return (type(o).__name__,) + tuple(sorted((c(x) for x in o),
-                                                      key=repr))
-        if hasattr(o, '__dict__') or hasattr(type(o), '__slots__'):
-            return (type(o).__name__, obj_fields(o))
-        raise TypeError("canon: cannot dump %r" % type(o))
+            return (t.__name__,) + tuple(sorted((c(x) for x in o),
+                                                key=repr))
+        if hasattr(o, '__dict__') or hasattr(t, '__slots__'):
+            return (t.__name__, obj_fields(o))
+        raise TypeError("canon: cannot dump %r" % t)
 
     return c(objs)
+
+
+def snapshot(world):
+    """Deep copy of the object graph (the frontier entry).
+
+    Semantically `copy.deepcopy(world)`: same memo discipline (aliasing and
+    cycles are preserved), but plain containers and `__dict__` objects are
+    copied by a direct walk, which is about three times faster than the copy
+    protocol; anything else (objects with __slots__, __reduce__ users, types
+    with a registered dispatch entry other than the State/Mode/LinkState
+    ones) is handed to copy.deepcopy with the shared memo.  With
+    VERIF_BFS_DEEPCOPY=1 in the environment copy.deepcopy is used for
+    everything.  Either way the snapshot-vs-replay check of search() and the
+    copy-vs-original dump comparison made there validate the copies."""
+    if _os.environ.get('VERIF_BFS_DEEPCOPY'):
+        return copy.deepcopy(world)
+    if not _PLAIN_DISPATCH:
+        _declare_llcp_state_classes()
+    memo = {}
+    obj_new = object.__new__
+    deque = collections.deque
+    defaultdict = collections.defaultdict
+
+    def cp(x):
+        t = type(x)
+        if t in _IMMUTABLE:
+            return x
+        i = id(x)
+        y = memo.get(i)
+        if y is not None:
+            return y
+        if t is list:
+            y = []
+            memo[i] = y
+            y.extend([e if type(e) in _FAST else cp(e) for e in x])
+        elif t is tuple:
+            y = tuple([e if type(e) in _FAST else cp(e) for e in x])
+            z = memo.get(i)
+            if z is not None:        # a cycle through the tuple made one
+                return z
+            memo[i] = y
+        elif t is dict:
+            y = {}
+            memo[i] = y
+            for k, v in x.items():
+                y[k if type(k) in _FAST else cp(k)] = \
+                    v if type(v) in _FAST else cp(v)
+        elif t is deque:
+            y = deque(maxlen=x.maxlen)
+            memo[i] = y
+            y.extend([e if type(e) in _FAST else cp(e) for e in x])
+        elif t is defaultdict:
+            y = defaultdict(x.default_factory)
+            memo[i] = y
+            for k, v in x.items():
+                y[cp(k)] = cp(v)
+        elif t is bytearray:
+            y = bytearray(x)
+            memo[i] = y
+        elif t is set:
+            y = set()
+            memo[i] = y
+            y.update([cp(e) for e in x])
+        elif t is frozenset:
+            y = frozenset([cp(e) for e in x])
+            memo[i] = y
+        elif t is types.MethodType:
+            y = types.MethodType(x.__func__, cp(x.__self__))
+            memo[i] = y
+        elif (t.__reduce_ex__ is object.__reduce_ex__
+              and t.__reduce__ is object.__reduce__
+              and not hasattr(t, '__deepcopy__')
+              and not hasattr(t, '__slots__')
+              and not hasattr(t, '__setstate__')
+              and t.__new__ is obj_new
+              and (t not in copy._deepcopy_dispatch or t in _PLAIN_DISPATCH)):
+            # a plain Python object: new instance, copied __dict__
+            y = obj_new(t)
+            memo[i] = y
+            yd = object.__getattribute__(y, '__dict__')
+            for k, v in object.__getattribute__(x, '__dict__').items():
+                yd[k] = v if type(v) in _FAST else cp(v)
+        else:
+            y = copy.deepcopy(x, memo)
+        return y
+
+    return cp(world)
+
+
+_PLAIN_DISPATCH = set()
+
+
+def plain_dispatch(*classes):
+    """Declare classes whose copy._deepcopy_dispatch entry is equivalent to
+    'new instance + deep-copied __dict__' (mc.shims registers such entries
+    for the LLCP State/Mode/LinkState classes)."""
+    _PLAIN_DISPATCH.update(classes)
+
+
+def _declare_llcp_state_classes():
+    _PLAIN_DISPATCH.add(object)          # sentinel: do this once
+    try:
+        import nfc.llcp.tco as tco
+        import nfc.llcp.llc as llc
+    except Exception:                    # pragma: no cover
+        return
+    plain_dispatch(tco.TransmissionControlObject.State,
+                   tco.TransmissionControlObject.Mode,
+                   llc.LogicalLinkController.LinkState)
 
 
 def digest(dump):
@@ -140,6 +267,7 @@ class Result(object):
         self.exhausted = False       # frontier ran empty: whole space covered
         self.capped = False          # max_states hit: NOT complete
         self.sound_checks = 0        # snapshot-vs-replay comparisons
+        self.copy_checks = 0         # snapshot-vs-original comparisons
         self.replay_steps = 0        # apply() calls made by those replays
         self.state_checks = 0
         self.per_depth = []          # new states per depth
@@ -206,7 +334,13 @@ def search(spec, depth, seed=0, prefix=(), full_check_depth=3, stride=101,
             acts = list(spec.actions(world))
             rng.shuffle(acts)
             for a in acts:
-                succ = copy.deepcopy(world)
+                succ = snapshot(world)
+                if res.transitions < 50 or res.transitions % stride == 0:
+                    # the copy itself: same dump as the original
+                    res.copy_checks += 1
+                    if state_digest(spec, succ) != state_digest(spec, world):
+                        raise Unsound("snapshot differs from its original "
+                                      "after history %r" % (hist,))
                 viols = spec.apply(succ, a)
                 res.transitions += 1
                 h2 = hist + (a,)
@@ -286,3 +420,121 @@ def roots(spec, levels=1, prefix=(), on_violation=None, seed=0):
         if is_new and len(h) == len(tuple(prefix)) + levels:
             found.append(h)
     return found, res
+
+
+# ----------------------------------------------------------------------------
+# Level-synchronous parallel search (one search spread over mc.par workers)
+# ----------------------------------------------------------------------------
+_P = {}
+
+
+def _expand_chunk(args):
+    """Worker: rebuild every frontier state of the chunk by replaying its
+    history on fresh objects, then compute all successors from snapshots of
+    it.  States already known to the parent at fork time are filtered here."""
+    idx, hists = args
+    spec, seen = _P['spec'], _P['seen']
+    full_check_depth, stride = _P['full_check_depth'], _P['stride']
+    check_state = getattr(spec, 'check_state', None)
+    if hasattr(spec, 'stats'):
+        spec.stats = {}
+    out = dict(idx=idx, succ=[], viol=[], transitions=0, sound_checks=0,
+               replay_steps=0, state_checks=0, copy_checks=0)
+    local = set()
+    n = 0
+    for hist in hists:
+        world, _ = replay(spec, hist)
+        out['replay_steps'] += len(hist)
+        for a in spec.actions(world):
+            succ = snapshot(world)
+            n += 1
+            if n % stride == 1:
+                out['copy_checks'] += 1
+                if state_digest(spec, succ) != state_digest(spec, world):
+                    raise Unsound("snapshot differs from its original after "
+                                  "history %r" % (hist,))
+            viols = spec.apply(succ, a)
+            out['transitions'] += 1
+            h2 = hist + (a,)
+            for sig, detail in (viols or ()):
+                out['viol'].append((h2, sig, detail))
+            dg = state_digest(spec, succ)
+            if len(h2) <= full_check_depth or n % stride == 0:
+                fresh, _ = replay(spec, h2)
+                out['sound_checks'] += 1
+                out['replay_steps'] += len(h2)
+                if state_digest(spec, fresh) != dg:
+                    raise Unsound(_explain(spec, succ, fresh, h2))
+            if dg in seen or dg in local:
+                continue
+            local.add(dg)
+            if check_state is not None:
+                out['state_checks'] += 1
+                for sig, detail in (check_state(succ) or ()):
+                    out['viol'].append((h2, sig, detail))
+            out['succ'].append((dg, h2))
+    out['stats'] = getattr(spec, 'stats', None)
+    return out
+
+
+def psearch(spec, depth, seed=0, prefix=(), full_check_depth=3, stride=101,
+            on_violation=None, procs=None, chunks_per_proc=6):
+    """Same search as `search`, one level at a time over mc.par workers.
+
+    The parent keeps the set of dumps and the frontier as *histories*; a
+    worker rebuilds its share of the frontier by replay on fresh objects and
+    expands each state from snapshots (so the snapshot-vs-replay check is
+    made by the workers exactly as in `search`).  The explored state set,
+    the number of transitions and the retained history per state are
+    functions of (spec, depth, seed) only, not of worker timing."""
+    from . import par
+    rng = random.Random(seed)
+    res = Result()
+    prefix = tuple(prefix)
+    root, _ = replay(spec, prefix)
+    res.digests.add(state_digest(spec, root))
+    res.states = 1
+    res.per_depth.append(1)
+    check_state = getattr(spec, 'check_state', None)
+    if check_state is not None:
+        res.state_checks += 1
+        for sig, detail in (check_state(root) or ()):
+            if on_violation is not None:
+                on_violation(prefix, sig, detail)
+    frontier = [prefix]
+    nproc = procs or par.nproc()
+    stats = getattr(spec, 'stats', None)
+    for level in range(1, depth + 1):
+        rng.shuffle(frontier)
+        nchunks = max(1, min(len(frontier), nproc * chunks_per_proc))
+        chunks = [(i, frontier[i::nchunks]) for i in range(nchunks)]
+        _P.update(spec=spec, seen=res.digests,
+                  full_check_depth=full_check_depth, stride=stride)
+        outs = sorted(par.pmap(_expand_chunk, chunks, procs=nproc),
+                      key=lambda o: o['idx'])
+        if stats is not None:
+            spec.stats = stats
+        nxt = []
+        for o in outs:
+            for k in ('transitions', 'sound_checks', 'replay_steps',
+                      'state_checks', 'copy_checks'):
+                setattr(res, k, getattr(res, k) + o[k])
+            if on_violation is not None:
+                for h2, sig, detail in o['viol']:
+                    on_violation(h2, sig, detail)
+            if stats is not None and o['stats']:
+                for k, v in o['stats'].items():
+                    stats[k] = stats.get(k, 0) + v
+            for dg, h2 in o['succ']:
+                if dg not in res.digests:
+                    res.digests.add(dg)
+                    nxt.append(h2)
+        res.states += len(nxt)
+        res.per_depth.append(len(nxt))
+        res.depth_completed = level
+        frontier = nxt
+        if not nxt:
+            res.exhausted = True
+            break
+    _P.clear()
+    return res
